@@ -12,8 +12,11 @@
 //!             fb = en eno nin {kind} nout {kind} nloc {kind} ns {stmt over the block's variables [EN] inputs outputs [ENO] locals}
 //!             stmt 9 = call: inst has_en [expr] nin {expr} nout {0 | main variable + 1} (0 | ENO target + 1); observations list the
 //!             program's variables and then every instance's variables (the flat store of Model/StCalls.v)
+//!   ids starting with a: programs with one-dimensional integer arrays.  program = nv {kind} narr {kind lo n} ns {stmt}
+//!             expr 4 = element read: arr index-kind index-expr;  stmt 10 = element write: arr index-kind index-expr value-expr;
+//!             observations list the program's variables and then every array's elements (the flat store of Model/StCore.v EIdx)
 //!   obs     = per cycle: status [nv {kind val}]   status 0 ok, 1 div0, 2 mod0, 3 overflow, 4 for-step-0,
-//!             5 type mismatch, 6 cond-not-bool, 7 case selector, 8 control flow, 9 undefined var, 10 panic, 11 other
+//!             5 type mismatch, 6 cond-not-bool, 7 case selector, 8 control flow, 9 undefined var, 10 panic, 11 other, 12 index out of bounds
 //!             (a case ends at its first faulting cycle); status 20 = did not compile
 use std::io::Write;
 use trust_runtime::error::RuntimeError;
@@ -27,12 +30,13 @@ fn kmax(k: usize) -> i128 { match k { 0 => 127, 1 => 32767, 2 => (1 << 31) - 1, 
 fn signed(k: usize) -> bool { k < 4 }
 
 #[derive(Clone, Debug)]
-enum Expr { Lit(bool, usize, i128), Var(usize), Un(usize, Box<Expr>), Bin(usize, Box<Expr>, Box<Expr>) }
+enum Expr { Lit(bool, usize, i128), Var(usize), Un(usize, Box<Expr>), Bin(usize, Box<Expr>, Box<Expr>), Idx(usize, usize, Box<Expr>) }
 #[derive(Clone, Debug)]
 enum Label { Single(i128), Range(i128, i128) }
 #[derive(Clone, Debug)]
 enum Stmt {
     Assign(usize, Expr),
+    AssignIdx(usize, usize, Expr, Expr),
     If(Expr, Vec<Stmt>, Vec<(Expr, Vec<Stmt>)>, Vec<Stmt>),
     Case(Expr, Vec<(Vec<Label>, Vec<Stmt>)>, Vec<Stmt>),
     For(usize, Expr, Expr, Expr, Vec<Stmt>),
@@ -52,7 +56,8 @@ impl FbDef {
     }
 }
 #[derive(Clone, Debug, Default)]
-struct Ext { fbs: Vec<FbDef>, insts: Vec<usize> }
+struct Ext { fbs: Vec<FbDef>, insts: Vec<usize>, /// (element kind, lower bound, length)
+             arrays: Vec<(usize, i128, usize)> }
 thread_local! { static NAMES: std::cell::RefCell<Vec<String>> = std::cell::RefCell::new(Vec::new()); }
 fn vname(x: usize) -> String { NAMES.with(|n| n.borrow().get(x).cloned()).unwrap_or_else(|| format!("v{x}")) }
 const OPS: [&str; 14] = ["+", "-", "*", "/", "MOD", "=", "<>", "<", "<=", ">", ">=", "AND", "OR", "XOR"];
@@ -66,6 +71,7 @@ fn pr_expr(e: &Expr) -> String {
         Expr::Un(0, e) => format!("(-{})", pr_expr(e)),
         Expr::Un(_, e) => format!("(NOT {})", pr_expr(e)),
         Expr::Bin(op, l, r) => format!("({} {} {})", pr_expr(l), OPS[*op], pr_expr(r)),
+        Expr::Idx(a, _, i) => format!("a{a}[{}]", pr_expr(i)),
     }
 }
 fn pr_block(b: &[Stmt], ind: usize, out: &mut String) { for s in b { pr_stmt(s, ind, out); } }
@@ -73,6 +79,7 @@ fn pr_stmt(s: &Stmt, ind: usize, out: &mut String) {
     let pad = "  ".repeat(ind);
     match s {
         Stmt::Assign(x, e) => out.push_str(&format!("{pad}{} := {};\n", vname(*x), pr_expr(e))),
+        Stmt::AssignIdx(a, _, i, e) => out.push_str(&format!("{pad}a{a}[{}] := {};\n", pr_expr(i), pr_expr(e))),
         Stmt::If(c, t, elifs, el) => {
             out.push_str(&format!("{pad}IF {} THEN\n", pr_expr(c)));
             pr_block(t, ind + 1, out);
@@ -130,6 +137,7 @@ fn source(kinds: &[usize], body: &[Stmt], ext: &Ext) -> String {
     s += "PROGRAM Main\nVAR\n";
     for (i, k) in kinds.iter().enumerate() { s += &format!("  v{i} : {};\n", KNAMES[*k]); }
     for (j, f) in ext.insts.iter().enumerate() { s += &format!("  f{j} : Fb{f};\n"); }
+    for (j, (k, lo, n)) in ext.arrays.iter().enumerate() { s += &format!("  a{j} : ARRAY[{}..{}] OF {};\n", lo, lo + *n as i128 - 1, KNAMES[*k]); }
     s += "END_VAR\n";
     pr_block(body, 0, &mut s);
     s += "END_PROGRAM\n";
@@ -142,12 +150,14 @@ fn enc_expr(e: &Expr, o: &mut Vec<String>) {
         Expr::Var(x) => { o.push("1".into()); o.push(x.to_string()); }
         Expr::Un(op, e) => { o.push("2".into()); o.push(op.to_string()); enc_expr(e, o); }
         Expr::Bin(op, l, r) => { o.push("3".into()); o.push(op.to_string()); enc_expr(l, o); enc_expr(r, o); }
+        Expr::Idx(a, ki, i) => { o.push("4".into()); o.push(a.to_string()); o.push(ki.to_string()); enc_expr(i, o); }
     }
 }
 fn enc_block(b: &[Stmt], o: &mut Vec<String>) { o.push(b.len().to_string()); for s in b { enc_stmt(s, o); } }
 fn enc_stmt(s: &Stmt, o: &mut Vec<String>) {
     match s {
         Stmt::Assign(x, e) => { o.push("0".into()); o.push(x.to_string()); enc_expr(e, o); }
+        Stmt::AssignIdx(a, ki, i, e) => { o.push("10".into()); o.push(a.to_string()); o.push(ki.to_string()); enc_expr(i, o); enc_expr(e, o); }
         Stmt::If(c, t, elifs, el) => { o.push("1".into()); enc_expr(c, o); enc_block(t, o); o.push(elifs.len().to_string()); for (c2, b) in elifs { enc_expr(c2, o); enc_block(b, o); } enc_block(el, o); }
         Stmt::Case(sel, brs, el) => {
             o.push("2".into()); enc_expr(sel, o); o.push(brs.len().to_string());
@@ -182,7 +192,8 @@ impl<'a> Dec<'a> {
             0 => { let u = self.n() != 0; let k = self.n() as usize; Expr::Lit(u, k, self.n()) }
             1 => Expr::Var(self.n() as usize),
             2 => { let op = self.n() as usize; Expr::Un(op, Box::new(self.expr())) }
-            _ => { let op = self.n() as usize; let l = self.expr(); let r = self.expr(); Expr::Bin(op, Box::new(l), Box::new(r)) }
+            3 => { let op = self.n() as usize; let l = self.expr(); let r = self.expr(); Expr::Bin(op, Box::new(l), Box::new(r)) }
+            _ => { let a = self.n() as usize; let ki = self.n() as usize; Expr::Idx(a, ki, Box::new(self.expr())) }
         }
     }
     fn block(&mut self) -> Vec<Stmt> { let n = self.n(); (0..n).map(|_| self.stmt()).collect() }
@@ -199,6 +210,7 @@ impl<'a> Dec<'a> {
             4 => { let c = self.expr(); Stmt::While(c, self.block()) }
             5 => { let b = self.block(); Stmt::Repeat(b, self.expr()) }
             6 => Stmt::Exit, 7 => Stmt::Continue, 8 => Stmt::Return,
+            10 => { let a = self.n() as usize; let ki = self.n() as usize; let i = self.expr(); Stmt::AssignIdx(a, ki, i, self.expr()) }
             _ => {
                 let inst = self.n() as usize;
                 let en = if self.n() != 0 { Some(self.expr()) } else { None };
@@ -219,7 +231,11 @@ impl<'a> Dec<'a> {
             FbDef { en, eno, kin, kout, kloc, body: self.block() }
         }).collect();
         let ni = self.n();
-        Ext { fbs, insts: (0..ni).map(|_| self.n() as usize).collect() }
+        Ext { fbs, insts: (0..ni).map(|_| self.n() as usize).collect(), arrays: vec![] }
+    }
+    fn arrays(&mut self) -> Ext {
+        let na = self.n();
+        Ext { arrays: (0..na).map(|_| { let k = self.n() as usize; let lo = self.n(); (k, lo, self.n() as usize) }).collect(), ..Default::default() }
     }
 }
 
@@ -228,8 +244,33 @@ struct Gen<'a> { rng: &'a mut Rng, kinds: Vec<usize>, counters: Vec<usize>, loop
                /// variables that are never assigned (a block's inputs); RETURN is not generated (function-block bodies); callable instances
                readonly: Vec<usize>, no_return: bool, callable: Vec<(usize, FbDef)>,
                /// variables that are neither read nor written by generated code (EN / ENO inside a block: the parser does not take them as names)
-               hidden: Vec<usize> }
+               hidden: Vec<usize>,
+               /// arrays (element kind, lower bound, length) the generated code may index
+               arrays: Vec<(usize, i128, usize)> }
 impl<'a> Gen<'a> {
+    /// an index for array a: (index kind, expression) — mostly inside the bounds, sometimes a variable or an arbitrary expression
+    fn index(&mut self, a: usize) -> (usize, Expr) {
+        let (_, lo, n) = self.arrays[a];
+        let hi = lo + n as i128 - 1;
+        let mut kis: Vec<usize> = self.kinds.iter().copied().filter(|k| *k < 7).collect();
+        kis.push(2);
+        let ki = *self.rng.pick(&kis);
+        let c = self.rng.below(10);
+        let vars = self.vars_of(ki);
+        // the compiler folds constant indices and rejects one outside the bounds: out-of-range indices come from variables only
+        if c < 3 && !vars.is_empty() { return (ki, Expr::Var(*self.rng.pick(&vars))); }
+        if c < 5 && !vars.is_empty() {
+            let x = Expr::Var(*self.rng.pick(&vars));
+            let d = Expr::Lit(false, ki, self.rng.range(0, 2) as i128);
+            return (ki, Expr::Bin(self.rng.below(2) as usize, Box::new(x), Box::new(d)));
+        }
+        // literal indices are never negative (the checker's constant folder reads DINT#-2 as 2 and rejects it)
+        let l0 = lo.max(0);
+        let v = match self.rng.below(4) { 0 => l0, 1 => hi, _ => l0 + self.rng.below((hi - l0 + 1) as u64) as i128 };
+        if v < kmin(ki) || v > kmax(ki) { let k2 = if v < 0 { 2 } else { ki }; return (k2, Expr::Lit(false, k2, v)); }
+        if !self.strict && v >= 0 && self.rng.chance(1, 2) { return (2, Expr::Lit(true, 2, v)); }
+        (ki, Expr::Lit(false, ki, v))
+    }
     fn vars_of(&self, k: usize) -> Vec<usize> { (0..self.kinds.len()).filter(|i| self.kinds[*i] == k && !self.counters.contains(i) && !self.loop_vars.contains(i) && !self.hidden.contains(i)).collect() }
     fn boundary(&mut self, k: usize) -> i128 {
         let (lo, hi) = (kmin(k), kmax(k));
@@ -238,6 +279,8 @@ impl<'a> Gen<'a> {
     fn int_expr(&mut self, k: usize, depth: u32, allow_pure: bool) -> Expr {
         let vars = self.vars_of(k);
         let leaf = depth == 0 || self.rng.chance(2, 5);
+        let arrs: Vec<usize> = (0..self.arrays.len()).filter(|a| self.arrays[*a].0 == k).collect();
+        if !arrs.is_empty() && self.rng.chance(1, 4) { let a = *self.rng.pick(&arrs); let (ki, i) = self.index(a); return Expr::Idx(a, ki, Box::new(i)); }
         if leaf {
             let c = self.rng.below(10);
             if c < 5 && !vars.is_empty() { return Expr::Var(*self.rng.pick(&vars)); }
@@ -303,6 +346,12 @@ impl<'a> Gen<'a> {
     }
     fn stmt(&mut self, depth: u32, in_loop: bool) -> Stmt {
         if !self.callable.is_empty() && self.rng.chance(1, 4) { return self.call(); }
+        if !self.arrays.is_empty() && self.rng.chance(1, 4) {
+            let a = self.rng.below(self.arrays.len() as u64) as usize;
+            let (ki, i) = self.index(a);
+            let k = self.arrays[a].0;
+            return Stmt::AssignIdx(a, ki, i, self.int_expr(k, 2, true));
+        }
         let c = if depth == 0 { self.rng.below(5) } else { self.rng.below(14) };
         match c {
             0..=4 => {
@@ -384,7 +433,7 @@ impl<'a> Gen<'a> {
         }
     }
 }
-fn pure(e: &Expr) -> bool { match e { Expr::Lit(u, _, _) => *u, Expr::Un(_, e) => pure(e), Expr::Bin(_, l, r) => pure(l) && pure(r), _ => false } }
+fn pure(e: &Expr) -> bool { match e { Expr::Idx(..) => false, Expr::Lit(u, _, _) => *u, Expr::Un(_, e) => pure(e), Expr::Bin(_, l, r) => pure(l) && pure(r), _ => false } }
 
 // ---------------------------------------------------------------- run
 fn to_value(k: usize, v: i128) -> Value {
@@ -402,7 +451,7 @@ fn fault_code(e: &RuntimeError) -> u8 {
     match e {
         RuntimeError::DivisionByZero => 1, RuntimeError::ModuloByZero => 2, RuntimeError::Overflow => 3, RuntimeError::ForStepZero => 4,
         RuntimeError::TypeMismatch => 5, RuntimeError::ConditionNotBool => 6, RuntimeError::CaseSelectorType => 7,
-        RuntimeError::InvalidControlFlow => 8, RuntimeError::UndefinedVariable(_) => 9, _ => 11,
+        RuntimeError::InvalidControlFlow => 8, RuntimeError::UndefinedVariable(_) => 9, RuntimeError::IndexOutOfBounds { .. } => 12, _ => 11,
     }
 }
 fn run_inner(kinds: &[usize], body: &[Stmt], cycles: &[Vec<(usize, i128)>], ext: &Ext) -> String {
@@ -423,6 +472,13 @@ fn run_inner(kinds: &[usize], body: &[Stmt], cycles: &[Vec<(usize, i128)>], ext:
                 for (j, f) in ext.insts.iter().enumerate() {
                     let iid = match h.runtime().storage().get_instance_var(pid, &format!("f{j}")) { Some(Value::Instance(id)) => Some(*id), _ => None };
                     for name in ext.fbs[*f].names() { out += &format!(" {}", match iid { Some(id) => dump(h.runtime().storage().get_instance_var(id, &name)), None => "99 no-instance".into() }); }
+                }
+                // the arrays' elements, in the order of the flat store
+                for j in 0..ext.arrays.len() {
+                    match h.runtime().storage().get_instance_var(pid, &format!("a{j}")) {
+                        Some(Value::Array(arr)) => for e in arr.elements.iter() { out += &format!(" {}", dump(Some(e))); },
+                        _ => out += " 99 no-array",
+                    }
                 }
                 // no call frame may be left behind
                 if !h.runtime().storage().frames().is_empty() { out += " FRAMES-LEFT"; }
@@ -458,6 +514,10 @@ fn fmt_line(id: &str, kinds: &[usize], body: &[Stmt], cycles: &[Vec<(usize, i128
         }
         o.push(ext.insts.len().to_string()); for i in &ext.insts { o.push(i.to_string()); }
     }
+    if id.starts_with('a') {
+        o.push(ext.arrays.len().to_string());
+        for (k, lo, n) in &ext.arrays { o.push(k.to_string()); o.push(lo.to_string()); o.push(n.to_string()); }
+    }
     enc_block(body, &mut o);
     let mut c: Vec<String> = vec![cycles.len().to_string()];
     for sets in cycles { c.push(sets.len().to_string()); for (x, v) in sets { c.push(x.to_string()); c.push(v.to_string()); } }
@@ -476,7 +536,7 @@ fn main() {
             let mut d = Dec { t: parts[1].split_whitespace().collect(), p: 0 };
             let nv = d.n() as usize;
             let kinds: Vec<usize> = (0..nv).map(|_| d.n() as usize).collect();
-            let ext = if parts[0].trim().starts_with('f') { d.ext() } else { Ext::default() };
+            let ext = if parts[0].trim().starts_with('f') { d.ext() } else if parts[0].trim().starts_with('a') { d.arrays() } else { Ext::default() };
             let body = d.block();
             let mut c = Dec { t: parts[2].split_whitespace().collect(), p: 0 };
             let nc = c.n();
@@ -517,14 +577,23 @@ fn main() {
                 let fk = fb.kinds();
                 let nro = fb.en as usize + fb.kin.len();
                 let mut hidden: Vec<usize> = vec![]; if fb.en { hidden.push(0); } if fb.eno { hidden.push(nro + fb.kout.len()); }
-                let mut g = Gen { rng: &mut rng, kinds: fk, counters: vec![], loop_vars: vec![], wild: false, strict: true, readonly: (0..nro).chain(hidden.iter().copied()).collect(), no_return: true, callable: vec![], hidden };
+                let mut g = Gen { rng: &mut rng, kinds: fk, counters: vec![], loop_vars: vec![], wild: false, strict: true, readonly: (0..nro).chain(hidden.iter().copied()).collect(), no_return: true, callable: vec![], hidden, arrays: vec![] };
                 fb.body = g.block(2, false, 4);
                 ext.fbs.push(fb);
             }
             for _ in 0..rng.range(1, 3) { let f = rng.below(ext.fbs.len() as u64) as usize; ext.insts.push(f); }
         }
         let callable: Vec<(usize, FbDef)> = ext.insts.iter().enumerate().map(|(j, f)| (j, ext.fbs[*f].clone())).collect();
-        let body = { let mut g = Gen { rng: &mut rng, kinds: kinds.clone(), counters: vec![], loop_vars: vec![], wild, strict, readonly: vec![], no_return: false, callable, hidden: vec![] }; g.block(3, false, 5) };
+        // a-cases: one-dimensional integer arrays (bounds around zero, 1-5 elements) read and written through index expressions
+        let with_arr = !wild && !with_fb && rng.chance(1, 3);
+        if with_arr {
+            let ints: Vec<usize> = pool.iter().copied().filter(|k| *k < 8).collect();
+            for _ in 0..rng.range(1, 2) {
+                let k = if ints.is_empty() { 2 } else { *rng.pick(&ints) };
+                let lo = rng.range(-3, 3) as i128; ext.arrays.push((k, lo, rng.range((1 - lo).max(1) as i64, 5) as usize));
+            }
+        }
+        let body = { let mut g = Gen { rng: &mut rng, kinds: kinds.clone(), counters: vec![], loop_vars: vec![], wild, strict, readonly: vec![], no_return: false, callable, hidden: vec![], arrays: ext.arrays.clone() }; g.block(3, false, 5) };
         let nc = rng.range(1, 4);
         let cycles: Vec<Vec<(usize, i128)>> = (0..nc).map(|_| {
             let ns = rng.below(kinds.len() as u64 + 1);
@@ -533,7 +602,7 @@ fn main() {
                 (x, v) }).collect()
         }).collect();
         let obs = run(&kinds, &body, &cycles, &ext);
-        writeln!(out, "{}", fmt_line(&format!("{}{id}", if with_fb { "f" } else if wild { "w" } else if strict { "s" } else { "c" }), &kinds, &body, &cycles, &obs, &ext)).unwrap();
+        writeln!(out, "{}", fmt_line(&format!("{}{id}", if with_fb { "f" } else if with_arr { "a" } else if wild { "w" } else if strict { "s" } else { "c" }), &kinds, &body, &cycles, &obs, &ext)).unwrap();
         if TIMED_OUT.load(std::sync::atomic::Ordering::SeqCst) { break; }
     }
     out.flush().unwrap();
